@@ -107,9 +107,14 @@ class CtxModel:
         if k in self.store or isinstance(k, ForwardRef) or isinstance(k, type):
             return {primary}
         u = ref_unwrap(k)
-        # "unwrapped form" of a string-valued alias: the reference it spells, or the class that reference spells
-        unwrapped = [u] + ([_resolve(u)] if isinstance(u, ForwardRef) else [])
+        # "unwrapped form" of a string-valued alias: the reference it spells, optionally ALSO the class that reference
+        # spells (before or after it). The reference itself is consulted under every reading: no reading lets a
+        # string alias miss the value stored under the very reference it holds.
+        if isinstance(u, ForwardRef):
+            target = _resolve(u)
+            chains = [[u], [u, target], [target, u]]
+        else:
+            target, chains = u, [[u]]
         # "a forward reference naming it": naming the wrapper itself, or naming the class it stands for
-        target = _resolve(u) if isinstance(u, ForwardRef) else u
         names = [name_ref(k), name_ref(target) if isinstance(target, type) else None]
-        return {self._first((("unwrapped", uu), ("fwdref", nn)))[0] for uu in unwrapped for nn in names}
+        return {self._first([("unwrapped", c) for c in chain] + [("fwdref", n)])[0] for chain in chains for n in names}
